@@ -133,3 +133,16 @@ func (t *AppendOnlyTree) initCache(tx dbtypes.Txer) error {
 	t.lastLeftCache = siblings
 	return nil
 }
+
+// Reorg deletes all the data relevant from firstReorgedBlock (includded) and onwards and
+// forgets the cached frontier: leaves may have been dropped, so lastIndex and lastLeftCache no
+// longer describe the tree and must be rebuilt from the DB by the next AddLeaf. Without this a
+// leaf whose index happens to follow the pre-reorg frontier was accepted (and its root computed
+// from the dropped leaves) instead of being rejected with ErrInvalidIndex.
+func (t *AppendOnlyTree) Reorg(tx dbtypes.Txer, firstReorgedBlock uint64) error {
+	if err := t.Tree.Reorg(tx, firstReorgedBlock); err != nil {
+		return err
+	}
+	t.lastIndex = -2
+	return nil
+}
